@@ -147,6 +147,7 @@ TYPED_CASES = [
     ("n instance of element(*, xs:int)", [('bool', 'False')]), ("i instance of element(i, xs:int)", [('bool', 'True')]), ("i instance of element(s, xs:int)", [('bool', 'False')]),
     ("concat(i, '|', b)", [('str', '42|true')]), ("i || f", [('str', '42100')]), ("string-join((i, l), '-')", [('str', '42-1-2-3')]),
     ("sort((i, s, @a)) ! name()", [('str', 's'), ('str', 'a'), ('str', 'i')]),
+    ("map{data(i): 'x'}?42", [('str', 'x')]), ("i idiv s", [('int', '6')]),
     ("distinct-values((i, s, @a))", [('Int', '42'), ('Int', '7')]), ("data(p/@cur) instance of xs:NMTOKEN", [('bool', 'True')]),
 ]
 
